@@ -1,7 +1,25 @@
 import EmbitModel.Driver.Sighash
 import EmbitModel.Crypto.Verify
+import EmbitModel.Crypto.SecpOps
+import EmbitModel.Crypto.SecpLawful
+import EmbitModel.Spec.Ecdsa
+import EmbitModel.Spec.Bip340
 namespace Embit.Driver
 open Embit
+
+/-- the curve record of the verifier ops: the lawful secp256k1 record (the same as `Driver.E`) -/
+def sigE : EcOps := Crypto.secpLawful
+
+/-- SEC 1 §4.1.4 verification (`Spec.Ecdsa.verify`) of the message value `z` under a strictly decoded SEC key and a
+    strictly decoded (BIP66) DER signature; `none` = malformed key or signature -/
+def sigEcdsa (pub : Bytes) (z : Nat) (sig : Bytes) : Option (Bool × Nat) :=
+  match Crypto.SecpLawful.secParse pub, Crypto.parseDerStrict sig with
+  | some P, some (r, s) => some (Spec.Ecdsa.verify sigE P z r s, s)
+  | _, _ => none
+
+/-- BIP340 verification (`Spec.Bip340.verify`) on a 32-byte key, 32-byte message, 64-byte signature -/
+def sigSchnorr (pk msg sig : Bytes) : Bool :=
+  (pk.length = 32 && msg.length = 32 && sig.length = 64) && Spec.Bip340.verify sigE Crypto.shaOps pk msg sig
 
 /-- "does this signature verify under this key against the CONSENSUS digest of this input?" -/
 def handleSigCheck (op : String) (args : List String) : Option String :=
@@ -13,9 +31,9 @@ def handleSigCheck (op : String) (args : List String) : Option String :=
       pure (t, i, s, f, p, g)) args
     if !(Spec.Consensus.validFlag f && idx < t.vin.length) then pure "undefined" else
     let z := ofBe (Spec.Consensus.legacy sha t idx sc f)
-    match Crypto.Secp.secParse pub, Crypto.parseDerStrict sig with
-    | some P, some (r, s) => pure (if Crypto.ecdsaVerify (some P) z r s && s ≤ Crypto.Secp.n / 2 then "valid" else "invalid")
-    | _, _ => pure "malformed"
+    match sigEcdsa pub z sig with
+    | some (ok, s) => pure (if ok && s ≤ Crypto.Secp.n / 2 then "valid" else "invalid")
+    | none => pure "malformed"
   | "sigcheck.segwit" => do
     let (t, idx, sc, v, f, pub, sig) ← runTok (do
       let t ← tokTx; let i ← tokNat; let s ← tokBytes; let v ← tokNat; let f ← tokNat; let p ← tokBytes
@@ -25,24 +43,24 @@ def handleSigCheck (op : String) (args : List String) : Option String :=
     | some inp =>
       if !Spec.Consensus.validFlag f then pure "undefined" else
       let z := ofBe (Spec.Consensus.bip143 sha t idx inp sc v f)
-      match Crypto.Secp.secParse pub, Crypto.parseDerStrict sig with
-      | some P, some (r, s) => pure (if Crypto.ecdsaVerify (some P) z r s && s ≤ Crypto.Secp.n / 2 then "valid" else "invalid")
-      | _, _ => pure "malformed"
+      match sigEcdsa pub z sig with
+      | some (ok, s) => pure (if ok && s ≤ Crypto.Secp.n / 2 then "valid" else "invalid")
+      | none => pure "malformed"
   | "sigcheck.taproot" => do
     let (a, pk, sig) ← runTok (do let a ← tokTapArgs; let p ← tokBytes; let g ← tokBytes; pure (a, p, g)) args
     let leaf : Option Spec.Consensus.Leaf := a.script.map fun s =>
       { script := s, version := a.leafVer, codesepPos := a.codesep.getD 0xffffffff }
     match Spec.Consensus.bip341 sha a.t a.idx a.spks a.values a.f a.annex leaf with
     | none => pure "undefined"
-    | some d => pure (if Crypto.bip340Verify pk d sig then "valid" else "invalid")
+    | some d => pure (if sigSchnorr pk d sig then "valid" else "invalid")
   | "sig.ecdsa" => do
     let (pub, z, sig) ← runTok (do let p ← tokBytes; let z ← tokBytes; let g ← tokBytes; pure (p, z, g)) args
-    match Crypto.Secp.secParse pub, Crypto.parseDerStrict sig with
-    | some P, some (r, s) => pure (if Crypto.ecdsaVerify (some P) (ofBe z) r s then "valid" else "invalid")
-    | _, _ => pure "malformed"
+    match sigEcdsa pub (ofBe z) sig with
+    | some (ok, _) => pure (if ok then "valid" else "invalid")
+    | none => pure "malformed"
   | "sig.schnorr" => do
     let (pk, m, sig) ← runTok (do let p ← tokBytes; let z ← tokBytes; let g ← tokBytes; pure (p, z, g)) args
-    pure (if Crypto.bip340Verify pk m sig then "valid" else "invalid")
+    pure (if sigSchnorr pk m sig then "valid" else "invalid")
   | _ => none
 
 end Embit.Driver
